@@ -168,6 +168,8 @@ func TestVerif_C02_call(t *testing.T) {
 	r := s.Rand()
 	dir := t.TempDir()
 	n := verifh.N(2500, 60000)
+	reached := map[string]int{}
+	count := func(k string) { s.Count(k); reached[k]++ }
 	opPool := []string{"tb", "tb", "ts", "by", "by", "st", "rd", "rd", "ra", "cl"}
 	readSizes := []int{0, 1, 2, 7, 100, 512, 4096, 65536}
 	b01 := func(b bool) string {
@@ -218,6 +220,7 @@ func TestVerif_C02_call(t *testing.T) {
 		var impl, class string
 		propOK := true
 		used, resends, challenged := 0, 0, false
+		retriedCase, redirected := false, false
 		ptxt, panicked := verifh.Safely(func() {
 			cl := C()
 			cl.GetTransport().DisableAutoDecode()
@@ -264,6 +267,9 @@ func TestVerif_C02_call(t *testing.T) {
 					}
 					if e.redirect {
 						h.Set("Location", "http://c02.invalid/hop"+strconv.Itoa(i))
+						if !isResend {
+							redirected = true
+						}
 					}
 					return &http.Response{
 						Status: strconv.Itoa(e.status) + " X", StatusCode: e.status,
@@ -368,6 +374,7 @@ func TestVerif_C02_call(t *testing.T) {
 				propOK = false
 			}
 			retried := resp.Request != nil && resp.Request.RetryAttempt > 0
+			retriedCase = retried
 			// finding C02-2 (fixes/C02-2): digest challenge x SetOutput/SetOutputFile (the
 			// challenge is what gets saved; if saving it fails the challenge is not even answered)
 			inDigestOutput := digest != "o" && save && challenged
@@ -395,31 +402,48 @@ func TestVerif_C02_call(t *testing.T) {
 			s.Crash(line, human, ptxt, "")
 			continue
 		}
-		s.Count("digest:" + digest)
-		s.Count("exchanges-used:" + strconv.Itoa(c02Min(used, 6)))
+		count("digest:" + digest)
+		count("exchanges-used:" + strconv.Itoa(c02Min(used, 6)))
 		if resends > 0 {
-			s.Count("digest-resent")
+			count("digest-resent")
 			if save {
-				s.Count("digest-resent+save")
+				count("digest-resent+save")
 			}
 			if (cdis || rdis) && eres {
-				s.Count("digest-resent+no-auto-read+error-target")
+				count("digest-resent+no-auto-read+error-target")
 			}
 		}
 		if retries > 0 {
-			s.Count("retry-configured")
+			count("retry-configured")
+		}
+		if retriedCase {
+			count("retried")
+		}
+		if redirected {
+			count("redirect-followed")
+		}
+		if strings.Contains(impl, " res=") && !strings.Contains(impl, " res=nil eres=nil ") {
+			count("target-bound")
 		}
 		if strings.Contains(impl, "err=ok") {
-			s.Count("call-ok")
+			count("call-ok")
 		} else {
-			s.Count("call-err")
+			count("call-err")
 		}
 		if save {
-			s.Count("save:" + map[bool]string{true: "file", false: "writer"}[file])
+			count("save:" + map[bool]string{true: "file", false: "writer"}[file])
 		}
 		s.Case(line, impl, propOK, class, used >= 2, human)
 	}
 	s.Finish()
+	// the lane must not pass vacuously: the situations it exists for have to occur
+	for _, k := range []string{"digest-resent", "digest-resent+save", "digest-resent+no-auto-read+error-target",
+		"retry-configured", "retried", "redirect-followed", "save:file", "save:writer", "exchanges-used:3", "exchanges-used:4",
+		"call-ok", "call-err", "target-bound"} {
+		if reached[k] == 0 {
+			t.Errorf("lane call never reached %q", k)
+		}
+	}
 }
 
 func c02Min(a, b int) int {
